@@ -23,7 +23,9 @@ RULE = ('one run = seeded universe (ids colliding across lexicons at a per-run r
         'family (lists compared whole, so extras fail). distinct = event digests; non-trivial '
         '= the final add installed >=1 lexicon with >=1 entry and >=1 synset into a non-empty '
         'store or with a non-default knob. 0.3% of the runs use a BIG universe (two lexicons of '
-        '1030-2050 entries/synsets, default BATCH_SIZE) so that size thresholds are crossed')
+        '1030-2050 entries/synsets, default BATCH_SIZE) so that size thresholds are crossed, '
+        'another 0.3% a FAT universe (130/260 members of one synset in shuffled order, forms of '
+        'one entry, examples/counts of one sense, definitions/examples/relations of one synset)')
 ASSUMPTIONS = ['the document space is sampled by the workload generator; simulation adds '
                'independence from history, neighbours, knobs, chunking, route and restart']
 
@@ -39,9 +41,21 @@ def build_big(seed):
     return u, plan
 
 
+def build_fat(seed):
+    rng = subseed(seed, 'universe-fat')
+    u = U.generate_fat(rng)
+    plan = [{'op': 'add', 'res': 'r0', 'route': rng.choice(['xml', 'gz', 'mem']),
+             'batch': rng.choice([1000, 1000, 8])}]
+    if rng.random() < 0.5:
+        plan.append({'op': 'restart'})
+    return u, plan
+
+
 def build(seed):
     if subseed(seed, 'big').random() < 0.003:
         return build_big(seed)     # default BATCH_SIZE, > 1000 rows per table
+    if subseed(seed, 'fat').random() < 0.003:
+        return build_fat(seed)     # 130/260 children of one parent
     rng = subseed(seed, 'universe')
     prof = U.Profile.draw(rng)
     prof['special'] = rng.choice([0.15, 0.5, 0.8])
